@@ -94,6 +94,19 @@ func cmdCheck(args []string) int {
 	start := time.Now()
 	res := runCheck(root, prop, tier, nil)
 	res.Seed = seed
+	if tier == "thorough" && os.Getenv("GOVC_NO_SELFTEST") == "" {
+		// thorough: also exercise the check against every stored change known to break this property (in-memory
+		// overlay, /repo untouched); a change it does not report is a weakness of the check, noted in the evidence
+		res.Selftest = runSelftest(root, prop)
+		for _, s := range res.Selftest {
+			switch {
+			case s.Error != "":
+				res.Lines = append(res.Lines, fmt.Sprintf("NOTE: self-test seed %s could not be applied: %s", s.Seed, s.Error))
+			case !s.Caught:
+				res.Lines = append(res.Lines, fmt.Sprintf("NOTE: self-test seed %s is NOT reported by this check", s.Seed))
+			}
+		}
+	}
 	res.Wall = time.Since(start).Seconds()
 	if os.Getenv("GOVC_NO_EVIDENCE") == "" { // the seed runner checks deliberately broken trees: their runs are not evidence
 		writeEvidence(res)
@@ -133,6 +146,7 @@ type CheckResult struct {
 	Bounded     []string
 	NBounded    int
 	NBoundedOK  int
+	Selftest    []selftestResult
 }
 
 // runCheck verifies every contract tagged with prop. overlay replaces files (mutants for the self-test).
@@ -316,7 +330,10 @@ func runCheck(root, prop, tier string, overlay map[string][]byte) *CheckResult {
 				"clause": o.Text, "verdict": o.Verdict.Result, "backend": o.Verdict.Backend, "backends": o.Verdict.All,
 				"solver_output": truncate(o.Verdict.Output, 6000)}
 			suffix := ""
-			if o.Status == "refuted" {
+			if o.Status == "refuted" && skipReplay {
+				suffix = "no-failing-input-found"
+				info["model"] = parseModel(o.Verdict.Output)
+			} else if o.Status == "refuted" {
 				rr := buildReplay(r, o)
 				info["replay"] = rr
 				info["model"] = parseModel(o.Verdict.Output)
@@ -451,6 +468,7 @@ func writeEvidence(res *CheckResult) {
 			"backends":                 res.Backends,
 			"per_obligation":           res.Records,
 			"samples":                  samples,
+			"selftest_must_fail":       res.Selftest,
 			"bounded_standins":         res.Bounded,
 			"bounded_obligations":      res.NBounded,
 			"bounded_discharged":       res.NBoundedOK,
